@@ -82,3 +82,16 @@ func VH_C18_Tables() {
 	}
 	vReach("C18c")
 }
+
+// C11c (per lunar year, concrete): the lunar-year object agrees with the New-Year-based year accessors of a date in that year.
+func VH_C11_YearObject() {
+	Y := vParam("Y")
+	l := NewSolar(Y, 6, 15, 12, 0, 0).GetLunar()
+	ly := NewLunarYear(l.year)
+	vAssert("yearobj:ganzhi", ly.GetGanZhi() == l.GetYearInGanZhi() && ly.GetGan() == l.GetYearGan() && ly.GetZhi() == l.GetYearZhi())
+	vAssert("yearobj:nine-star", ly.GetNineStar().GetIndex() == l.GetYearNineStarBySect(1).GetIndex())
+	vAssert("yearobj:nine-star-closed-form", ly.GetNineStar().GetIndex() == specMod(2-(l.year-2024), 9))
+	vAssert("yearobj:taisui", ly.GetPositionTaiSui() == l.GetYearPositionTaiSuiBySect(1) && ly.GetPositionTaiSuiDesc() == l.GetYearPositionTaiSuiDescBySect(1))
+	vAssert("yearobj:indices", ly.GetGanIndex() == l.yearGanIndex && ly.GetZhiIndex() == l.yearZhiIndex && ly.GetYear() == l.year)
+	vReach("C11c")
+}
